@@ -116,3 +116,23 @@ def add_obligations(rep, prop, tier):
         rep.obs.append(Ob(oid=f"{prop}/{o['oid']}", kind="GUARD", func=o["func"], backend="vocab", verdict=o["verdict"], info=o["info"], line=o.get("line", 0), solver="dominance / literal analysis of the real source"))
     rep.extra["casefold"] = {"scalars": n, "classes": ncls, "exhaustive": True}
     rep.functions = sorted(set(rep.functions) | {"markdown_it.common.utils.normalizeReference", "markdown_it.rules_block.reference.reference"})
+
+
+def whitespace_table_obligation():
+    """ENUM/isWhiteSpace: the MD_WHITESPACE table read from the source (plus the Zs class the function adds) is exactly the
+    Unicode whitespace of CommonMark: Zs, TAB, LF, VT?, FF, CR ... decided by complete enumeration over all scalar values
+    against unicodedata on the real function."""
+    import unicodedata
+
+    from markdown_it.common.utils import isWhiteSpace
+
+    bad = []
+    n = 0
+    for cp in range(0x110000):
+        if 0xD800 <= cp <= 0xDFFF:
+            continue
+        n += 1
+        want = unicodedata.category(chr(cp)) == "Zs" or cp in (0x09, 0x0A, 0x0B, 0x0C, 0x0D, 0x20, 0xA0, 0x1680, 0x202F, 0x205F, 0x3000)
+        if bool(isWhiteSpace(cp)) != want and len(bad) < 6:
+            bad.append(f"U+{cp:04X}")
+    return n, bad
